@@ -6,6 +6,7 @@ The only assumption is `FmtContract` (behaviour of Go's shortest float formattin
 the executable `serF`).
 -/
 import Anytype.Lemmas.StrictRoundTrip
+import Anytype.Lemmas.ContractOne
 namespace Anytype
 
 /-- the strict decoder reads the serialisation of every well-formed value tree back exactly
@@ -39,3 +40,30 @@ end Anytype
 #print axioms Anytype.C02_decode
 #print axioms Anytype.C02_valid_and_faithful
 #print axioms Anytype.C02_valid
+
+
+/-! ### the float-formatting hypothesis is a single statement
+
+`FmtContract` (the only unproved assumption of C01, C02, C04's cut-serial corollary and C16) is
+equivalent to its field `strict` alone: a strict RFC 8259 reader takes the text `serF x` of every
+finite `x`, as a whole, for the identical float64. `parse_back` (Go's `ParseFloat` reads it back)
+follows because the parser model and the strict reader agree on number literals (`C03_numbers`). -/
+
+open Anytype in
+theorem C02_contract_one_field :
+    FmtContract ↔
+      ∀ x : F64, x.isFinite = true → Strict.number (serF x) = some (some (.float x), []) :=
+  FmtContract.iff_strict
+
+open Anytype in
+/-- the round trip and the validity theorem under the single-statement hypothesis -/
+theorem C02_valid_and_faithful_one
+    (hs : ∀ x : F64, x.isFinite = true → Strict.number (serF x) = some (some (.float x), []))
+    (v : JVal) (hw : v.WF) (hc : v.isContainer = true) :
+    Strict.decodeStrict (ser v) = some v :=
+  C02_valid_and_faithful (FmtContract.of_strict hs) v hw hc
+
+open Anytype in
+#print axioms C02_contract_one_field
+open Anytype in
+#print axioms C02_valid_and_faithful_one
